@@ -441,8 +441,9 @@ func c11Run(c *core.Ctx) {
 			for i, k := range p {
 				xs[i] = vals[k]
 			}
-			for _, q := range []float64{0, 0.1, 0.5, 0.75, 1} {
-				for _, cf := range []float64{0.01, 0.5, 0.9, 0.99, 1} {
+			for k := 0; k <= 20; k++ {
+				q := float64(k) / 20
+				for _, cf := range []float64{0.01, 0.1, 0.3, 0.5, 0.9, 0.99, 1} {
 					sc.Xs, sc.Q, sc.C = xs, q, cf
 					r.Case("sampleci", sc)
 					r.Try(func() { c11SampleCI(sc, r) })
@@ -463,5 +464,5 @@ func c11Run(c *core.Ctx) {
 			}
 		}
 	}
-	r.Bound("SampleCI", "every permutation of samples of size<=5, one sample of size 31; 5 q x 5 c")
+	r.Bound("SampleCI", "every permutation of samples of size<=5 x 21 q x 7 c; one sample of size 31 x 5 q x 5 c")
 }
